@@ -1,7 +1,7 @@
 #!/bin/bash
 # usage: tools/run_baseline.sh <tree>   - pinned suite, serially, on a scratch tree (PYTHONPATH override); prints
 # "baseline tests passing: N / 213" where N counts BASELINE.json stable_pass tests that pass in this run
-w=$1; j=$(mktemp /tmp/wt/logs/junit.XXXXXX.xml)
+w=$1; mkdir -p /tmp/wt/logs; j=$(mktemp /tmp/wt/logs/junit.XXXXXX.xml)
 cd "$w" && PYTHONPATH="$w" timeout 1500 /venv/bin/python -m pytest -ra -q -p no:cacheprovider --timeout=900 \
    --continue-on-collection-errors --junitxml="$j" > "$j.out" 2>&1
 /venv/bin/python - "$j" <<'P'
